@@ -538,11 +538,11 @@ pub fn gen_c13(prop: &str, tier: Tier, rng: &mut Rng, seed: u64, run: u64) -> Pl
     let stale_p = *rng.pick(&[0.0, 0.1, 0.3]);
     let cmd_follow_mode = rng.chance(0.1);
     if cmd_follow_mode {
-        // free some device terminals again (an update with a LINKED follower terminal is not judged)
+        // free a few device terminals again (followers occur on free and on coupled terminals)
         for d in 0..ndev {
             let (lo, hi) = ranges[d];
             for kk in lo..hi {
-                if rng.chance(0.3) {
+                if rng.chance(0.15) {
                     plan.push("D", &[kk as i64]);
                 }
             }
